@@ -57,6 +57,14 @@ fn arg_mask() -> u32 {
 
 fn build_model(lines: &[Line], cfg: &CfgView, lk: &Link) -> RefModel {
     let n = cfg.nodes.len();
+    // every label that stands on a function's entry instruction names that function (taken from the
+    // nodes, not from the analyzer's label -> function map, which is one of the things under test)
+    let mut fn_of_label: std::collections::BTreeMap<String, usize> = std::collections::BTreeMap::new();
+    for (fi, f) in cfg.functions.iter().enumerate() {
+        for l in &cfg.nodes[f.entry].labels {
+            fn_of_label.entry(l.clone()).or_insert(fi);
+        }
+    }
     let mut kind = vec![NKind::Plain; n];
     let mut gen = vec![0u32; n];
     let mut kill = vec![0u32; n];
@@ -112,7 +120,7 @@ fn build_model(lines: &[Line], cfg: &CfgView, lk: &Link) -> RefModel {
             // call, or jump/branch whose target is a function label
             let is_mem = nodes.len() == 2 || matches!(ins.mn.as_str(), "la" | "lw" | "lh" | "lb" | "lhu" | "lbu" | "sw" | "sh" | "sb");
             if !is_mem {
-                if let Some(f) = cfg.function_labels.get(l) {
+                if let Some(f) = fn_of_label.get(l) {
                     let linking = w & (1 << RA) != 0;
                     // a jal that links into another register is neither a call nor a plain jump
                     let jumps = w == 0;
